@@ -84,6 +84,11 @@ def make_items(seed, shard, nshards, tier):
                     items.append({"id": f"nagread/{name}/{q}", "kind": "nagread", "cls": name, "seedstr": f"{seedstr}/nagread/{q}", "nag": True})
             if p == 0:
                 items.append({"id": f"bad/{name}/{p}", "kind": "failing", "cls": name, "seedstr": seedstr, "form": (ci + 3) % 6, "fault": ci % 3})
+                items.append({"id": f"badhdr/{name}/{p}", "kind": "failing", "cls": name, "seedstr": seedstr, "form": (ci + 1) % 6, "fault": 3 + ci % 5})
+            if name == "TAX1099INT_V100":
+                # the one class with two separate runs of repeated children: members given OUT of run order (writing sorts a copy, not the instance)
+                for q in range(6):
+                    items.append({"id": f"unordered/{name}/{p}/{q}", "kind": "from_etree", "cls": name, "seedstr": f"{seedstr}/u{q}", "profile": "max", "unordered": True})
     for j in range(8 if tier == "quick" else 40):
         items.append({"id": f"ty/{shard}/{j}", "kind": "types", "seedstr": f"C17t/{seed}/{shard}/{j}"})
     # the SAME texts offered to string elements with different limits (one element per item, so that the order of wide and narrow
@@ -193,7 +198,8 @@ def run_item(item, imm):
         return NotImplemented
 
     def make():
-        return instances.build(cls, random.Random(item["seedstr"]), item.get("profile", "random"), opts=instances.Opts(maxdepth=5, value_fn=nag))
+        return instances.build(cls, random.Random(item["seedstr"]), item.get("profile", "random"),
+                               opts=instances.Opts(maxdepth=5, value_fn=nag, run_order=not item.get("unordered")))
 
     if kind == "nagread":
         # a document containing over-long warn-only strings, rendered by the HARNESS (no library serializer involved): reading it
@@ -237,8 +243,18 @@ def run_item(item, imm):
             data = text[: max(len(text) * 2 // 3, text.index("<" + item["cls"] + ">") + 3)].encode("utf_8")
         elif item["fault"] == 1:
             data = text.replace("</" + item["cls"] + ">", "</ZZWRONG>").encode("utf_8")
-        else:
+        elif item["fault"] == 2:
             data = (text + "<EXTRA>1</EXTRA>").encode("utf_8")
+        elif item["fault"] == 3:   # the failure is in the header stage
+            data = text.replace("VERSION", "VERSIONX", 1).encode("utf_8")
+        elif item["fault"] == 4:
+            data = text.replace("CHARSET:", "CHARSET:KOI8", 1).replace("<?OFX ", "<?OFY ", 1).encode("utf_8")
+        elif item["fault"] == 5:
+            data = b""
+        elif item["fault"] == 6:
+            data = text[: text.index("<OFX>")].encode("utf_8") + b"<OFX><MEMO>\xff\xfe\xfa</MEMO></OFX>"
+        else:
+            data = text[:40].encode("utf_8")
     src = io.BytesIO(data)
     tree = OFXTree()
     try:
@@ -255,7 +271,10 @@ def run_item(item, imm):
         imm.check("second-convert-differs", s1, s2, item)
         return [fp(data), shape, fp(s1)]
     except Exception as e:
-        imm.check("source-bytes-mutated-by-parse", data, src.getvalue(), item)
+        # the caller's stream is the caller's: still open, still holding the same bytes
+        imm.check("source-closed-by-failed-parse", False, src.closed, item)
+        if not src.closed:
+            imm.check("source-bytes-mutated-by-parse", data, src.getvalue(), item)
         return ["raised", type(e).__name__]
 
 
@@ -415,6 +434,7 @@ def run_shard(ctx):
 
     # ---- (ii-b) dirty process: shuffled, failing inputs first, unrelated work, 3 times in a row
     rng = random.Random(f"C17d/{ctx.seed}/{ctx.shard}")
+    ctx.count("base_classes_used_first", ref_decl.touch_base_classes())
     for rep in range(3):
         order = list(items)
         rng.shuffle(order)
